@@ -15,6 +15,15 @@ variable {K : Type} [Add K] [Sub K] [Mul K] [Div K] [Neg K] [NatCast K] [LT K] [
 theorem eig0T_eq (sqrt : K → K) (A : M3 K) (ev : K) : eig0T sqrt A ev = eig0 sqrt A ev := by
   rfl
 
+theorem orthoCompT_eq (sqrt : K → K) (e : V3 K) : orthoCompT sqrt e = orthoComp sqrt e := by
+  rfl
+
+theorem eig1CoeffsT_eq (sqrt : K → K) (m00 m01 m11 : K) : eig1CoeffsT sqrt m00 m01 m11 = eig1Coeffs sqrt m00 m01 m11 := by
+  rfl
+
+theorem eig1T_eq (sqrt : K → K) (A : M3 K) (e0 : V3 K) (ev1 : K) : eig1T sqrt A e0 ev1 = eig1 sqrt A e0 ev1 := by
+  rfl
+
 theorem trigVectorsT_eq (sqrt : K → K) (S : M3 K) (l : K × K × K) (r : K) :
     trigVectorsT sqrt S l r = trigVectors sqrt S l r := by
   unfold trigVectorsT trigVectors
